@@ -3,6 +3,7 @@ package checks
 import (
 	"errors"
 	"fmt"
+	"time"
 
 	"pgregory.net/rapid"
 	"verif/harness/core"
@@ -83,3 +84,5 @@ func labelCfg(o *run.Obs, c core.Config) {
 	o.Labelf("marshaler=%s", c.Marshaler)
 	o.Labelf("bf=%d", c.BF)
 }
+
+func runtimeGosched() { time.Sleep(50 * time.Microsecond) }
